@@ -25,8 +25,10 @@ type SpecEnv struct {
 	old     *State
 	pkg     *types.Package
 	resolve func(name string) (TV, bool)
+	oldResolve func(name string) (TV, bool)
 	hyp     bool // evaluating a hypothesis (affects nothing semantically; used for diagnostics)
 	depth   int
+	transparent bool // reveal every opaque spec function (used when proving lemmas)
 }
 
 func (env *SpecEnv) with(name string, tv TV) *SpecEnv {
@@ -342,6 +344,17 @@ func (env *SpecEnv) evalIdent(name string) TV {
 		return boolTV(name)
 	case "nil":
 		return TV{Scalar{"0"}, types.Typ[types.UntypedNil]}
+	}
+	if name == "now" {
+		if _, shadowed := func() (TV, bool) {
+			if env.resolve != nil {
+				return env.resolve(name)
+			}
+			return TV{}, false
+		}(); !shadowed {
+			// ghost: the last value returned by time.Now().Unix() (unconstrained clock)
+			return TV{Scalar{env.fc.heapSym(env.st, "ghost|now", "(_ BitVec 64)")}, types.Typ[types.Int64]}
+		}
 	}
 	if env.resolve != nil {
 		if tv, ok := env.resolve(name); ok {
@@ -814,7 +827,12 @@ func (env *SpecEnv) evalCall(e *Expr) TV {
 			if env.old == nil {
 				sfail("old() not available here")
 			}
-			return env.inState(env.old).eval(args[0])
+			oe := env.inState(env.old)
+			if env.oldResolve != nil {
+				// inside a function body, names inside old() denote the entry values of parameters
+				oe.resolve = env.oldResolve
+			}
+			return oe.eval(args[0])
 		case "len", "cap":
 			x := env.eval(args[0])
 			switch s := x.V.(type) {
@@ -869,6 +887,22 @@ func (env *SpecEnv) evalCall(e *Expr) TV {
 				c = not(c)
 			}
 			return TV{Scalar{ite(c, a.V.(Scalar).T, b.V.(Scalar).T)}, a.T}
+		case "disjoint":
+			// the two slices share no memory (up to their capacities)
+			a, oka := env.eval(args[0]).V.(SliceV)
+			b, okb := env.eval(args[1]).V.(SliceV)
+			if !oka || !okb {
+				sfail("disjoint() needs two slices")
+			}
+			return boolTV(or(not(eq(a.Ref, b.Ref)), app("bvsle", app("bvadd", a.Off, a.Cap), b.Off), app("bvsle", app("bvadd", b.Off, b.Cap), a.Off)))
+		case "sameRegion":
+			// the two slices point into the same allocation
+			a, oka := env.eval(args[0]).V.(SliceV)
+			b, okb := env.eval(args[1]).V.(SliceV)
+			if !oka || !okb {
+				sfail("sameRegion() needs two slices")
+			}
+			return boolTV(and(eq(a.Ref, b.Ref), not(eq(a.Ref, "0"))))
 		case "typeof":
 			x := env.eval(args[0])
 			return TV{Scalar{x.V.(IfaceV).Tag}, types.Typ[types.Int]}
@@ -937,7 +971,12 @@ func (env *SpecEnv) applySpec(sf *SpecFn, args []*Expr) TV {
 	if len(args) != len(sf.Params) {
 		sfail("spec function %s takes %d arguments", sf.Name, len(sf.Params))
 	}
-	penv := &SpecEnv{fc: fc, st: env.st, old: env.old, pkg: fc.eng.typesPkg(sf.Pkg), vars: map[string]TV{}, depth: env.depth + 1}
+	penv := &SpecEnv{fc: fc, st: env.st, old: env.old, pkg: fc.eng.typesPkg(sf.Pkg), vars: map[string]TV{}, depth: env.depth + 1, transparent: env.transparent}
+	if env.transparent && sf.Body != nil && sf.Opaque {
+		tr := *sf
+		tr.Opaque = false
+		sf = &tr
+	}
 	if penv.pkg == nil {
 		penv.pkg = env.pkg
 	}
